@@ -3,6 +3,7 @@ package main
 import (
 	"encoding/json"
 	"go/constant"
+	"go/token"
 	"go/types"
 	"sort"
 	"strings"
@@ -671,6 +672,42 @@ func ruleHashShape(c *Ctx, r *Rep) {
 			isMod := false
 			if n, ok := t.(*types.Named); ok {
 				isMod = c.IsModObj(n.Obj())
+			}
+			if isMod {
+				// an embedded struct is written flat, and encoding/json drops, without a word, a promoted field whose
+				// name a field of the embedding struct (or of a second embedded one) also has
+				own := map[string]bool{}
+				promoted := map[string]int{}
+				promotedAt := map[string]token.Pos{}
+				jsonName := func(st *types.Struct, i int) string {
+					if n := strings.Split(reflectTagGet(st.Tag(i), "json"), ",")[0]; n != "" {
+						return n
+					}
+					return st.Field(i).Name()
+				}
+				for i := 0; i < u.NumFields(); i++ {
+					f := u.Field(i)
+					ft := f.Type()
+					if p, ok := ft.Underlying().(*types.Pointer); ok {
+						ft = p.Elem()
+					}
+					es, isStruct := ft.Underlying().(*types.Struct)
+					if f.Embedded() && isStruct && strings.Split(reflectTagGet(u.Tag(i), "json"), ",")[0] == "" {
+						for j := 0; j < es.NumFields(); j++ {
+							if es.Field(j).Exported() {
+								promoted[jsonName(es, j)]++
+								promotedAt[jsonName(es, j)] = f.Pos()
+							}
+						}
+						continue
+					}
+					own[jsonName(u, i)] = true
+				}
+				for name, k := range promoted {
+					if own[name] || k > 1 {
+						r.Bad("promoted-field-kept|"+path+"."+name, c.Pos(promotedAt[name]), "every field of an embedded struct reaches the JSON that is hashed (no field of the same name beside it)", sprintf("%s is shadowed or ambiguous", name))
+					}
+				}
 			}
 			for i := 0; i < u.NumFields(); i++ {
 				f := u.Field(i)
